@@ -194,6 +194,8 @@ def programs(tier, rng):
         if not cplx:
             add(t, Node("fn1", "abs", [L("a")]), "=", cls="atom")
             add(t, Node("fn2", "min", [L("a"), L("b")]), "=", cls="atom"); add(t, Node("fn2", "max", [L("a"), L("b")]), "=", cls="atom")
+            for f in ("min", "max"):      # scalar operand on either side (separate overloads with their own scalar-tail evaluators)
+                add(t, Node("fn2", f, [L("a"), lit(rng, t)]), "=", cls="atom"); add(t, Node("fn2", f, [lit(rng, t), L("a")]), "=", cls="atom")
             for c in CMP:
                 add(t, Node("cmp", c, [L("a"), L("b")]), "=", mode=0 if not integ else 1, boolean=True, cls="atom")
             add(t, Node("logic", "&&", [Node("cmp", "<", [L("a"), L("b")]), Node("cmp", ">", [L("a"), L("c")])]), "=", mode=0 if not integ else 1, boolean=True, cls="atom")
@@ -212,6 +214,9 @@ def programs(tier, rng):
             for f in LIBM1: add(t, Node("fn1", f, [L("a")]), "=", cls="atom")
             for f in ROUNDERS: add(t, Node("fn1", f, [L("a")]), "=", cls="atom")
             for f in LIBM2: add(t, Node("fn2", f, [L("a"), L("b")]), "=", cls="atom")
+            for f in LIBM2:               # scalar first / second argument: asymmetric functions expose a swapped operand order
+                add(t, Node("fn2", f, [L("a"), lit(rng, t)]), "=", cls="atom"); add(t, Node("fn2", f, [lit(rng, t), L("a")]), "=", cls="atom")
+                add(t, Node("cmp", "<", [Node("fn2", f, [lit(rng, t), L("a")]), L("b")]), "=", mode=0, boolean=True, cls="atom")
             for f in ("isnan", "isinf", "isfinite"): add(t, Node("pred", f, [Node("bin", "/", [L("a"), L("b")])]), "=", mode=0, boolean=True, cls="atom")
         # the five assignment forms with a tensor and with a scalar on the right
         for aop in ("+=", "-=", "*=", "/="):
@@ -253,7 +258,11 @@ def programs(tier, rng):
             for _ in range(ntrees // 4):
                 f = rng.choice(LIBM1 + LIBM2)
                 sub = num_tree(rng, t, 1, allow_minmax=False)
-                tree = Node("fn1", f, [sub]) if f in LIBM1 else Node("fn2", f, [sub, num_tree(rng, t, 1, allow_minmax=False)])
+                if f in LIBM1: tree = Node("fn1", f, [sub])
+                else:
+                    form = rng.choice(["tt", "tt", "ts", "st"])
+                    other = num_tree(rng, t, 1, allow_minmax=False) if form == "tt" else lit(rng, t)
+                    tree = Node("fn2", f, [other, sub] if form == "st" else [sub, other])
                 add(t, tree, "=")
     return progs
 
